@@ -32,6 +32,10 @@ def jobs(tier):
             js.append({"for": "C14", "country": country, "subject": [table, typ], "filter": "none", "method": "fifo", "b2": "same"})
         js.append({"for": "C14", "country": country, "subject": ["OUT", "SELL"], "filter": "from-to", "method": "fifo", "b2": "buy" if tier == "quick" else "same"})
         js.append({"for": "C14", "country": country, "subject": ["IN", "INTEREST"], "filter": "to", "method": "fifo", "b2": "buy"})
+        # an asset that is only bought and held comes first: the assets after it must still be reported
+        js.append({"for": "C14", "country": country, "subject": ["OUT", "SELL"], "filter": "none", "method": "fifo", "b2": "sell", "b1": "hold"})
+        # one symbolic UTC offset for all timestamps: the window and the printed dates are those of the local calendar date
+        js.append({"for": "C14", "country": country, "subject": ["OUT", "SELL"], "filter": "from-to", "method": "fifo", "b2": "buy", "off": "shared"})
     js.append({"for": "C14", "country": "us", "subject": ["OUT", "GIFT"], "filter": "none", "method": "hifo", "b2": "sell"})
     js.append({"for": "C14", "country": "us", "subject": ["INTRA", "MOVE"], "filter": "none", "method": "lifo", "b2": "sell"})
     if tier == "thorough":
@@ -61,7 +65,7 @@ def select(prop, spec):
 
 def describe(spec):
     if spec["for"] == "C14":
-        return "C14 %s subject=%s:%s filter=%s %s B2=%s%s" % (spec["country"], spec["subject"][0], spec["subject"][1], spec["filter"], spec["method"], spec["b2"], " +sell" if spec.get("b1sell") else "")
+        return "C14 %s subject=%s:%s filter=%s %s B2=%s%s" % (spec["country"], spec["subject"][0], spec["subject"][1], spec["filter"], spec["method"], spec["b2"], " +sell" if spec.get("b1sell") else "") + (" B1=hold-only" if spec.get("b1") == "hold" else "") + (" offset=shared" if spec.get("off") else "")
     return "C16 %s lang=%s %s filter=%s %s%s" % (spec["country"], spec["lang"], spec["method"], spec["filter"], spec["shape"], " symbolic-instants" if spec.get("symbolic_instants") else "")
 
 
@@ -140,6 +144,8 @@ def run_c14(S, spec):
     table, typ = spec["subject"]
     subj = slot(table, typ, asset="B1", fee="pos" if typ in ("FEE", "MOVE") else "none")
     s1 = [slot("IN", "BUY", asset="B1"), subj] + ([slot("OUT", "SELL", asset="B1")] if spec.get("b1sell") else [])
+    if spec.get("b1") == "hold":
+        s1 = s1[:1]
     s2 = [slot("IN", "BUY", asset="B2")]
     if spec["b2"] == "same":
         s2.append(dict(subj, asset="B2"))  # both assets write on the subject's sheet
@@ -149,8 +155,9 @@ def run_c14(S, spec):
         s["row"] = 10 + i
     for i, s in enumerate(s2):
         s["row"] = 10 + i
-    h1 = Hist(S, s1, [2020], prefix="x")
-    h2 = Hist(S, s2, [2020], prefix="y")
+    off = S.int("off", -720, 840) if spec.get("off") else None
+    h1 = Hist(S, s1, [2020], prefix="x", shared_off=off, shared_sym=off is not None)
+    h2 = Hist(S, s2, [2020], prefix="y", shared_off=off, shared_sym=off is not None)
     from_date, to_date = _dates(S, spec, [2020])
     cfg = make_cfg(country, from_date=from_date, to_date=to_date, allow_negative=True)
     cds = _compute(S, cfg, spec["method"], {"B1": h1, "B2": h2})
@@ -162,7 +169,16 @@ def run_c14(S, spec):
     if err is not None:
         S.fail("C14", "generator-exception", "%s: %s" % (type(err).__name__, str(err)[:200]), tag=type(err).__name__)
     expected = {}
-    for asset in ("B1", "B2"):
+    for asset, hh in (("B1", h1), ("B2", h2)):
+        # the fractions of the window, from the input side: every taxable slot whose own local date lies in [from, to]
+        in_window = 0
+        for i, s in enumerate(hh.slots):
+            taxable = s["table"] == "OUT" or (s["table"] == "IN" and s["type"] in EARN_TYPES) or (s["table"] == "INTRA" and hh.f[i] > 0)
+            d = hh.txs[i].timestamp.date()
+            if taxable and not (from_date is not None and d < from_date) and not (to_date is not None and d > to_date):
+                in_window += 1
+        got_events = len({g.taxable_event.row for g in cds[asset].gain_loss_set})
+        S.expect(got_events == in_window, "C14", "window", "%s: %d taxable events in the computed window, %d by their own dates" % (asset, got_events, in_window))
         for g in cds[asset].gain_loss_set:
             expected.setdefault(US_MAP[g.taxable_event.transaction_type.name], {}).setdefault(asset, []).append(g)
     for sheet, cells in rec.sheets.items():
